@@ -76,7 +76,7 @@ func (g *gen) credentialMatrix(emit func(string, M) M) {
 				chall, ver = "s256:v1", "v1"
 			}
 			out := emit("Authorize", M{"client": c, "uri": cl.URIs[0], "rtype": "code", "rmode": "", "scopes": []string{"openid"}, "chall": chall, "state": "st1", "nonce": "n1"})
-			emit("Login", M{"req": S(out, "req"), "user": "u2"})
+			emit("Login", M{"req": S(out, "req"), "user": "u2@idp.example"})
 			out = emit("Callback", M{"req": S(out, "req")})
 			emit("CodeExchange", M{"caller": c, "cred": cr, "code": S(out, "code"), "uri": cl.URIs[0], "verifier": ver})
 		}
@@ -126,7 +126,7 @@ func (g *gen) deadTokenMatrix(emit func(string, M) M) {
 			emit("EndSession", M{"hint": M{"kind": "valid", "id": deadIDT}, "client": "", "uri": "", "state": "", "host": "A"})
 			out := emit("Authorize", M{"client": "cw", "uri": g.w.Clients["cw"].URIs[0], "rtype": "code", "rmode": "", "scopes": []string{"openid", "offline_access"},
 				"chall": "none", "state": "st1", "nonce": "n1"})
-			emit("Login", M{"req": S(out, "req"), "user": "u2"})
+			emit("Login", M{"req": S(out, "req"), "user": "u2@idp.example"})
 			out = emit("Callback", M{"req": S(out, "req")})
 			liveAT, _, _ = lastNames(emit("CodeExchange", M{"caller": "cw", "cred": g.rightCred("cw"), "code": S(out, "code"), "uri": g.w.Clients["cw"].URIs[0], "verifier": "none"}))
 		case "expire":
@@ -176,7 +176,7 @@ func (g *gen) thirdPartyMatrix(emit func(string, M) M) {
 	ext := func(kind, user string) M { return M{"kind": kind, "form": "issued", "id": user, "declared": "jwt"} }
 	own, _, _ := lastNames(g.codeFlowOut("cw", emit))
 	subjects := []M{ext("extSubject", "u1"), ext("extActor", "u1")}
-	actors := []M{noActor, ext("extActor", "u2"), ext("extSubject", "u2")}
+	actors := []M{noActor, ext("extActor", "u2@idp.example"), ext("extSubject", "u2@idp.example")}
 	if own != "none" && own != "" {
 		subjects = append(subjects, atRef(own))
 		actors = append(actors, atRef(own))
